@@ -443,4 +443,31 @@ def run(chk):
     c05.completion_rules(chk, P, "C18")
 
     common.arg_agreement_rule(chk, P, "C18", [("emit_traceparent", None)], 4)
+
+    def push_arms_frame():
+        """Traceparent::push / the free push: every path returns a frame whose slot holds the pushed traceparent and which is marked active -
+        also when that traceparent equals the current one (the frame is what carries it to another thread or task; an inert frame swaps
+        nothing in there, so the worker has no traceparent, its spans are new roots and the sampler runs again)."""
+        ev = []
+        for k in ("emit_traceparent::Traceparent::push", "emit_traceparent::push"):
+            if not P.has_body(k):
+                raise mir.AnchorMissing(k)
+            b = P.body(k)
+            slot = [(bb, st) for bb, j, st in b.statements(normal_only=True) if st["k"] == "assign" and st["place"].get("p") and
+                    [p.get("n") for p in st["place"]["p"] if isinstance(p, dict) and "n" in p][-1:] == ["slot"]]
+            act = [(bb, st) for bb, j, st in b.statements(normal_only=True) if st["k"] == "assign" and st["place"].get("p") and
+                   [p.get("n") for p in st["place"]["p"] if isinstance(p, dict) and "n" in p][-1:] == ["active"]]
+            if len(slot) != 1 or len(act) != 1:
+                return False, "%s must set the frame's slot and active flag once each (found %d / %d)" % (k, len(slot), len(act)), [], b.span
+            if not b.must_pass([slot[0][0]]) or not b.must_pass([act[0][0]]):
+                return False, ("%s can return a frame whose slot was never filled (an early return before the slot is set): entering that frame "
+                               "installs nothing, so the pushed traceparent does not travel with it" % k), [], b.span
+            so = b.origin(slot[0][1]["rv"]["op"]) if slot[0][1]["rv"]["k"] == "use" else ("unknown",)
+            if not (so[0] == "agg" and so[1].get("variant") == "Some"):
+                return False, "%s stores %s in the slot, not Some(the pushed traceparent)" % (k, o_str(so)), [], b.span
+            if mir.o_const_value(b.origin(act[0][1]["rv"]["op"])) is not True:
+                return False, "%s does not mark the frame active" % k, [], b.span
+            ev.append(b.span)
+        return True, "", ev
+    chk.ob("C18.R6:push-arms-frame", "a pushed traceparent always travels in the frame (slot filled, frame active) on every path", push_arms_frame)
     return chk
